@@ -747,8 +747,41 @@ func astFromValue(value interface{}, ttype Type) ast.Value {
 		return val
 	}
 
-	if valueVal.Type().Kind() == reflect.Map {
-		// TODO: implement astFromValue from Map to Value
+	// An enum's default is configured as its internal value; the literal is
+	// the value's name.
+	if ttype, ok := ttype.(*Enum); ok {
+		if name, ok := ttype.Serialize(value).(string); ok {
+			return ast.NewEnumValue(&ast.EnumValue{
+				Value: name,
+			})
+		}
+	}
+
+	// Convert a Golang map to a GraphQL input object literal, one field per
+	// defined input field (in name order) that has a value.
+	if ttype, ok := ttype.(*InputObject); ok {
+		if valueMap, ok := value.(map[string]interface{}); ok {
+			fieldDefs := ttype.Fields()
+			fieldNames := make([]string, 0, len(fieldDefs))
+			for fieldName := range fieldDefs {
+				fieldNames = append(fieldNames, fieldName)
+			}
+			sort.Strings(fieldNames)
+			fields := []*ast.ObjectField{}
+			for _, fieldName := range fieldNames {
+				fieldAST := astFromValue(valueMap[fieldName], fieldDefs[fieldName].Type)
+				if fieldAST == nil {
+					continue
+				}
+				fields = append(fields, ast.NewObjectField(&ast.ObjectField{
+					Name:  ast.NewName(&ast.Name{Value: fieldName}),
+					Value: fieldAST,
+				}))
+			}
+			return ast.NewObjectValue(&ast.ObjectValue{
+				Fields: fields,
+			})
+		}
 	}
 
 	if value, ok := value.(bool); ok {
